@@ -300,6 +300,14 @@ def install(host):
         # a Mac newer than the tool's bundled tables: its interpreter knows error numbers above 106
         errno.errorcode.update({107: 'ENOTCAPABLE', 108: 'ENEWERTHANTHETOOL'})
         errno.ENOTCAPABLE = 107
+    if host in ('permuted', 'bsdlike'):
+        # another IMPLEMENTATION of the language: every way of asking says PyPy (the unchanged package runs on it)
+        import types
+        impl = {k: getattr(sys.implementation, k) for k in dir(sys.implementation) if not k.startswith('__')}
+        impl['name'] = 'pypy'
+        sys.implementation = types.SimpleNamespace(**impl)
+        platform.python_implementation = lambda: 'PyPy'
+        sys.pypy_version_info = (7, 3, 15, 'final', 0)
     if host in ('scrambled', 'permuted'):
         sys.byteorder = 'big'          # what the interpreter reports on s390x / ppc64 / sparc64 (read at import time or later)
     os.environ['TZ'] = 'America/Los_Angeles' if host == 'darwin' else 'Asia/Kolkata'
@@ -347,6 +355,7 @@ def workload(seed):
                               for a in sorted(D.AF_CORE) for k in sorted(D.SOCK)}
     # words the tool shows as signed numbers (file offsets, deltas): the same dump reads the same on a 32-bit interpreter
     signed = [(1 << 31) - 1, 1 << 31, (1 << 32) - 1, 1 << 32, 1 << 40, (1 << 62) + 5, (1 << 63) - 1, 1 << 63, (1 << 64) - 2]
+    signed += [(1 << k) + 5 for k in range(33, 64)] + [(1 << k) - 1 for k in range(33, 64)]   # (a mask constant one digit short)
     out['signed_lseek'] = {hex(w): render('BSC_lseek', (5, w, 0, 0), (0, w, 0, 0)) for w in signed}
     out['signed_preadv'] = {hex(w): render('BSC_sys_preadv', (5, 0x1000, 2, w), (0, 64, 0, 0)) for w in signed}
     out['signed_decr'] = {hex(w): render('DecrSet', (w, w, w, w), (0, 0, 0, 0)) for w in signed}
